@@ -3120,8 +3120,17 @@ pub fn gen_cases(topic: &str, seed: u64, n: usize, path: &str) -> Result<(), Str
                 {
                     // one case in ten: the TEXT repeats its first identifier key (see run.rs, `dupid`)
                     let dup = g.r.chance(1, 10);
-                    json!({"topic":"ser","oracle":true,"wt":!dup,"dupid":dup,"src":src,"docs":docs,"tps":tps,"tns":[],
-                           "plan":{"tri":false,"scope":"sw","sws":[[], [true,true,true,true]],"ser":true,"via_value":!dup}})
+                    let mut c = json!({"topic":"ser","oracle":true,"wt":!dup,"dupid":dup,"src":src,"docs":docs,"tps":tps,"tns":[],
+                           "plan":{"tri":false,"scope":"sw","sws":[[], [true,true,true,true]],"ser":true,"via_value":!dup}});
+                    // one case in eight: a SPELLING of the text that YAML reads as the same value - an explicit null for the
+                    // empty example list, an extra unreferenced identifier whose name is a number / boolean / null scalar, a
+                    // document-start marker, a comment, an anchor and alias on an example (see run.rs, `spell`): the value path
+                    // loads the value that this very text parses to, and both paths must agree (C14, second sentence)
+                    if !dup && g.r.chance(1, 8) {
+                        c["spell"] = json!(*g.r.pick(&["nullex", "numid", "boolid", "nullid", "docstart", "comment", "fltid"][..]));
+                        c["wt"] = json!(false);
+                    }
+                    c
                 }
             }
             // C11: every representation of the same logical document
